@@ -8,6 +8,7 @@ import Mahotas.Proofs.C13
 import Mahotas.Proofs.C13Maps
 import Mahotas.Proofs.C13Regions
 import Mahotas.Proofs.C13BBox
+import Mahotas.Proofs.C13Com
 open Mahotas Mahotas.C13
 
 /-- **C13-T1 (fold_eq, generic).** For every value type, operation `f`, identity `start`, number of
@@ -194,6 +195,20 @@ every seen non-zero pixel is inside the box and every bound is initial or attain
 theorem C13_bbox_fast_eq_generic (N0 N1 : Nat) (data : List Int) (hlen : data.length = N0 * N1) :
     bboxFast N0 N1 data = bboxGeneric [N0, N1] data :=
   bboxFast_eq_generic N0 N1 data hlen
+
+/-- **C13-T3 (com_eq).** Over any field (the driver runs the same polymorphic definition with `Float`
+arithmetic), the model of `center_of_mass` — one pass accumulating `totals[label] += v` and
+`centers[label][j] += v * index_rev(j)`, then the division and the coordinate reversal — returns for every
+label `l ≤ max label` (label 0 = the whole image when no label map is given) and every axis `j`, in the
+documented coordinate order, `Σ v·coord_j / Σ v` over the pixels carrying label `l`. -/
+theorem C13_com_eq {α : Type} [Field α] (shape : List Nat) (vals : List α) (labels : List Int) :
+    comModelG (fieldOps α) shape vals labels =
+      (List.range ((maxOf labels).toNat + 1)).flatMap fun l =>
+        (List.range shape.length).map fun j =>
+          (((List.range vals.length).filter fun i => (labels.getD i 0).toNat = l).map fun i =>
+              vals.getD i 0 * (((unravel shape i).getD j 0 : Nat) : α)).sum /
+          (((List.range vals.length).filter fun i => (labels.getD i 0).toNat = l).map fun i => vals.getD i 0).sum :=
+  comModelG_eq shape vals labels
 
 /-! non-vacuity and the pinned defect in miniature: an identity that is *not* a lower bound of the data
     (as `numeric_limits<double>::min()`, the smallest positive value, is not) breaks `labeled_max`;
